@@ -371,7 +371,7 @@ def run_asyncio(cfg: dict, alpn: Optional[str], client: Callable[[ClientIO], Awa
             loop.call_later(terminate_at, lambda: loop.create_task(ctx.terminated.set()))
         await io.settle()
         try:
-            await client(io)
+            res["client_result"] = await client(io)
         except Exception as e:
             res["client_error"] = repr(e)
         await io.settle()
@@ -384,16 +384,15 @@ def run_asyncio(cfg: dict, alpn: Optional[str], client: Callable[[ClientIO], Awa
             else:
                 e = task.exception()
                 err = None if e is None else sorted(type(x).__name__ for x in getattr(e, "exceptions", [e]))
-        else:
-            task.cancel()
-            try:
-                await task
-            except BaseException:
-                pass
         live = [t for t in asyncio.all_tasks(loop) if t is not asyncio.current_task() and not t.done()]
         res.update({"handler_done": done_at[:1], "error": err, "live_tasks": len(live), "io": io})
+        if _EARLY[0] is not None:
+            _EARLY[0](_finish(dict(res), rec, loop_errors, loop.turns))
+        # best-effort cleanup; a handler that cannot be cancelled must not hang the harness (the caller runs us in a child)
         for t in live:
             t.cancel()
+        if live:
+            await asyncio.wait(live, timeout=5)
 
     try:
         asyncio.set_event_loop(loop)
@@ -407,11 +406,15 @@ def run_asyncio(cfg: dict, alpn: Optional[str], client: Callable[[ClientIO], Awa
     return _finish(res, rec, loop_errors, loop.turns)
 
 
+_EARLY: List[Optional[Callable[[dict], None]]] = [None]
+
+
 def _finish(res: dict, rec: Rec, loop_errors: List[str], turns: int) -> dict:
     io = res.pop("io")
     return {"out": bytes(io.out), "writes": io.writes, "closed_at": io.closed_at, "eof_at": io.eof_at, "labels": rec.labels, "apps": rec.apps,
             "access": rec.access, "exceptions": rec.exceptions, "handler_done": res.get("handler_done"), "error": res.get("error"),
-            "live_tasks": res.get("live_tasks"), "loop_errors": loop_errors, "turns": turns, "client_error": res.get("client_error")}
+            "live_tasks": res.get("live_tasks"), "loop_errors": loop_errors, "turns": turns, "client_error": res.get("client_error"),
+            "client_result": res.get("client_result")}
 
 
 # --------------------------------------------------------------------------------------------------------------
@@ -574,7 +577,7 @@ def run_trio(cfg: dict, alpn: Optional[str], client: Callable[[ClientIO], Awaita
                 n.start_soon(terminator)
             await io.settle()
             try:
-                await client(io)
+                res["client_result"] = await client(io)
             except Exception as e:
                 res["client_error"] = repr(e)
             await io.settle()
@@ -582,10 +585,109 @@ def run_trio(cfg: dict, alpn: Optional[str], client: Callable[[ClientIO], Awaita
             await io.settle()
             res["live_tasks"] = 0 if done_at else 1
             res.update({"handler_done": done_at[:1], "error": err[0] if err else None, "io": io})
+            if _EARLY[0] is not None:
+                _EARLY[0](_finish(dict(res), rec, [], 0))
             n.cancel_scope.cancel()
 
     trio.run(main, clock=trio.testing.MockClock(autojump_threshold=0))
     return _finish(res, rec, [], 0)
 
 
-RUNNERS = {"asyncio": run_asyncio, "trio": run_trio}
+_PRELOADED = [False]
+
+
+def _preload() -> None:
+    """import everything a session needs in the parent, so that the forked children do not pay for it"""
+    if _PRELOADED[0]:
+        return
+    _PRELOADED[0] = True
+    import trio  # noqa
+    import trio.testing  # noqa
+    import h2.connection  # noqa
+    import wsproto  # noqa
+    import hypercorn.app_wrappers  # noqa
+    import hypercorn.asyncio.tcp_server  # noqa
+    import hypercorn.asyncio.worker_context  # noqa
+    import hypercorn.trio.tcp_server  # noqa
+    import hypercorn.trio.worker_context  # noqa
+    import hypercorn.config  # noqa
+
+
+def _isolated(fn: Callable[..., dict], timeout: float = 60.0) -> Callable[..., dict]:
+    """Run one session in a forked child.  The child reports its observation *before* it tears the server down, so a
+    handler that cannot be cancelled (a real deadlock in the code under test) never hangs the harness; the child is
+    killed if it does not exit.  `stuck_teardown` records that this happened."""
+    import os
+    import pickle
+    import select
+    import signal
+    import time as _time
+
+    def run(*a, **k) -> dict:
+        if os.environ.get("VERIF_NOFORK"):
+            return fn(*a, **k)
+        _preload()
+        r, w = os.pipe()
+        pid = os.fork()
+        if pid == 0:
+            code = 0
+            try:
+                os.close(r)
+                sent = [False]
+
+                def early(result: dict) -> None:
+                    if not sent[0]:
+                        sent[0] = True
+                        with os.fdopen(w, "wb", closefd=False) as f:
+                            pickle.dump(result, f)
+                        os.close(w)
+
+                _EARLY[0] = early
+                out = fn(*a, **k)
+                early(out)
+            except BaseException as e:  # noqa
+                try:
+                    with os.fdopen(w, "wb", closefd=False) as f:
+                        pickle.dump({"harness_exception": repr(e)}, f)
+                except Exception:
+                    pass
+                code = 3
+            finally:
+                os._exit(code)
+        os.close(w)
+        data = b""
+        deadline = _time.time() + timeout
+        while True:
+            left = deadline - _time.time()
+            if left <= 0:
+                break
+            ready, _, _ = select.select([r], [], [], left)
+            if not ready:
+                break
+            chunk = os.read(r, 1 << 20)
+            if not chunk:
+                break
+            data += chunk
+        os.close(r)
+        # the observation is complete: the child's own teardown is of no interest (and may hang on a real deadlock)
+        stuck = False
+        try:
+            os.kill(pid, signal.SIGKILL)
+        except ProcessLookupError:
+            pass
+        os.waitpid(pid, 0)
+        if not data:
+            return {"out": b"", "writes": [], "closed_at": None, "eof_at": None, "labels": [], "apps": [], "access": [], "exceptions": [],
+                    "handler_done": [], "error": None, "live_tasks": None, "loop_errors": [], "turns": 0, "client_error": None,
+                    "stuck_session": True, "stuck_teardown": True}
+        res = pickle.loads(data)
+        if "harness_exception" in res:
+            raise RuntimeError("runner child failed: " + res["harness_exception"])
+        res["stuck_teardown"] = stuck
+        res["stuck_session"] = False
+        return res
+
+    return run
+
+
+RUNNERS = {"asyncio": _isolated(run_asyncio), "trio": _isolated(run_trio)}
